@@ -140,3 +140,56 @@ pub fn batch_verify_empty() -> bool {
     println!("batch_verify(&params, &[], &[], &[]) -> {:?}", r);
     r.is_err()
 }
+
+/// A one-instruction-plus-load ZKIR program `load BigUint(bits) -> x; into_bytes(n) x -> y`, compiled by
+/// the real circuit synthesis (`MidnightCircuit` + `dummy_synthesize_run` through
+/// `ZkirRelation::public_inputs`, then `cost_model`). true = the compilation panicked.
+pub fn zkir_into_bytes_biguint(bits: u32, n: usize) -> bool {
+    use midnight_zkir::{Instruction, IrType, IrValue, Operation, ZkirRelation};
+    let prog = vec![
+        Instruction { operation: Operation::Load(IrType::BigUint(bits)), inputs: vec![], outputs: vec!["x".into()] },
+        Instruction { operation: Operation::IntoBytes(n), inputs: vec!["x".into()], outputs: vec!["y".into()] },
+        Instruction { operation: Operation::Publish, inputs: vec!["y".into()], outputs: vec![] },
+    ];
+    let rel = match ZkirRelation::from_instructions(&prog) {
+        Ok(r) => r,
+        Err(e) => {
+            println!("from_instructions rejected the program: {e:?}");
+            return false;
+        }
+    };
+    let mut w = std::collections::HashMap::new();
+    w.insert("x", IrValue::BigUint(num_bigint::BigUint::from(1u8)));
+    let off = quiet(|| rel.public_inputs(w.clone()).map(|v| v.len()).map_err(|e| format!("{e:?}")));
+    println!("zkir load BigUint({bits}); into_bytes({n}): off-circuit + in-circuit type pass -> {:?}", off);
+    if off.is_err() {
+        return true;
+    }
+    let r = quiet(|| midnight_zk_stdlib::cost_model(&rel).k);
+    println!("zkir load BigUint({bits}); into_bytes({n}): circuit compilation (cost_model) -> {:?}", r);
+    r.is_err()
+}
+
+/// Off-circuit `IrValue::Native(1).into_bytes(n)`.
+pub fn zkir_into_bytes_native_offcircuit(n: usize) -> bool {
+    use midnight_zkir::IrValue;
+    let r = quiet(|| IrValue::Native(F::ONE).into_bytes(n).map(|_| ()).map_err(|e| format!("{e:?}")));
+    println!("IrValue::Native(1).into_bytes({n}) -> {:?}", r);
+    r.is_err()
+}
+
+/// Off-circuit ModExp with modulus m.
+pub fn zkir_mod_exp_offcircuit(x: u64, n: u64, m: u64) -> bool {
+    use midnight_zkir::{Instruction, IrType, IrValue, Operation, ZkirRelation};
+    let prog = vec![
+        Instruction { operation: Operation::Load(IrType::BigUint(64)), inputs: vec![], outputs: vec!["x".into(), "m".into()] },
+        Instruction { operation: Operation::ModExp(n), inputs: vec!["x".into(), "m".into()], outputs: vec!["y".into()] },
+    ];
+    let rel = ZkirRelation::from_instructions(&prog).expect("well-formed");
+    let mut w = std::collections::HashMap::new();
+    w.insert("x", IrValue::BigUint(num_bigint::BigUint::from(x)));
+    w.insert("m", IrValue::BigUint(num_bigint::BigUint::from(m)));
+    let r = quiet(|| rel.public_inputs(w.clone()).map(|v| v.len()).map_err(|e| format!("{e:?}")));
+    println!("zkir mod_exp({n}) x={x} m={m} off-circuit -> {:?}", r);
+    r.is_err()
+}
